@@ -84,9 +84,14 @@ DeclaresField(svc, pt, f) ==
    \/ f = "id" /\ Has(svc.decl, pt) /\ Has(W.types, pt) /\ W.types[pt].node
    \/ Declares(svc, pt, f)
 
-Scrubbed(scrub, path, pt, f) ==
+Scrubbed1(scrub, path, pt, f) ==
    LET k == JoinStr(path, ".") IN
    Has(scrub, k) /\ Has(scrub[k], pt) /\ \E i \in DOMAIN scrub[k][pt] : scrub[k][pt][i] = f
+(* the scrub table is keyed by the runtime type: for a helper on an interface / union every member counts *)
+Scrubbed(scrub, path, pt, f) ==
+   IF Has(W.types, pt) /\ W.types[pt].kind \in {"INTERFACE", "UNION"}
+   THEN \A i \in DOMAIN W.types[pt].members : Scrubbed1(scrub, path, W.types[pt].members[i], f)
+   ELSE Scrubbed1(scrub, path, pt, f)
 
 VarOK(r, v) ==
    IF v = "id" /\ ~Has(op.varDefs, "id") THEN TRUE
@@ -94,6 +99,12 @@ VarOK(r, v) ==
    ELSE IF Has(op.varDefs, v) /\ Has(op.varDefs[v], "def")
         THEN LET d == RenderArgVal(op.varDefs[v].def) IN (Has(r.defaults, v) /\ r.defaults[v] = d) \/ (Has(r.passed, v) /\ r.passed[v] = d)
    ELSE ~Has(r.passed, v) \/ r.passed[v] = "~"
+
+IsAbstract(t) == Has(W.types, t) /\ W.types[t].kind \in {"INTERFACE", "UNION"}
+SameSpot(a, b) == a.path = b.path /\ a.key = b.key /\ a.f = b.f
+Related(t1, t2) == \/ t1 = t2
+                   \/ IsAbstract(t2) /\ t1 \in Range(W.types[t2].members)
+                   \/ IsAbstract(t1) /\ t2 \in Range(W.types[t1].members)
 
 PlanOK(p) ==
    LET steps  == {p.steps[i] : i \in {j \in DOMAIN p.steps : ~p.steps[j].internal}}
@@ -107,13 +118,19 @@ PlanOK(p) ==
                            /\ IF IsRootType(st.parentType)
                               THEN st.facts.kw = op.kind /\ st.facts.opName = op.name
                               ELSE st.facts.kw = "query" /\ Has(W.types, st.parentType) /\ W.types[st.parentType].node
-      \* (b) coverage: every client-selected field is asked from a service that declares it
-      /\ \A n \in client : \E x \in sent : x.n = n /\ DeclaresField(SvcByUrl(x.url), n.pt, n.f)
+      \* (b) coverage: every client-selected field is asked from a service that declares it (a field
+      \*     selected on an interface / union may be asked once per possible type instead)
+      /\ \A n \in client :
+            \/ \E x \in sent : (x.n = n /\ DeclaresField(SvcByUrl(x.url), n.pt, n.f))
+            \/ /\ IsAbstract(n.pt)
+               /\ \A m \in Range(W.types[n.pt].members) :
+                     \E x \in sent : (SameSpot(x.n, n) /\ x.n.pt = m /\ DeclaresField(SvcByUrl(x.url), m, n.f))
       \* (c) what is added are only id/__typename helpers, each registered for removal
-      /\ \A x \in sent : x.n \in client \/ ( /\ x.n.f \in {"id", "__typename"} /\ x.n.key = x.n.f
-                                              /\ Scrubbed(p.scrub, x.n.path, x.n.pt, x.n.f) )
+      /\ \A x \in sent : \/ \E n \in client : (SameSpot(x.n, n) /\ Related(x.n.pt, n.pt))
+                          \/ ( /\ x.n.f \in {"id", "__typename"} /\ x.n.key = x.n.f
+                               /\ Scrubbed(p.scrub, x.n.path, x.n.pt, x.n.f) )
       \* ... and nothing the client asked for is registered for removal
-      /\ \A n \in client : (n.f \in {"id", "__typename"} /\ n.key = n.f) => ~Scrubbed(p.scrub, n.path, n.pt, n.f)
+      /\ \A n \in client : (n.f \in {"id", "__typename"} /\ n.key = n.f /\ ~IsAbstract(n.pt)) => ~Scrubbed(p.scrub, n.path, n.pt, n.f)
 
 ReqOK(svc, r) ==
    /\ E("C02") => /\ r.parses /\ r.validates            \* valid GraphQL for THAT service's own schema
